@@ -69,7 +69,8 @@ P_fk == P_few \cup P_kinds
 P_ak == P_all \cup P_kinds
 P_cfg == { P(FALSE, <<1, 5>>, 0, "fix"), P(FALSE, <<1, 2, 3, 4, 5, 6>>, -17, "sci"), PS("k"),
            PQ(<<1>>, 8, "sci", "/molar/second") }
-Fm_all == {"list", "tuple", "set", "dict", "str"}
+Fm_all == {"list", "tuple", "set", "dict", "str", "alias"}
+Fm_la == {"list", "alias"}
 Fm_list == {"list"}
 \* configurations: one dimension varied at a time, plus two combinations
 Cfg(spc, eol, g, ct, ms, dq) == [DefaultCfg EXCEPT !.spc = spc, !.eol = eol, !.gmode = g, !.ctoks = ct, !.msfk = ms, !.dq = dq]
@@ -93,8 +94,8 @@ SL_coefs_q == [Keys |-> K1p, AllowedKeys |-> None, AllowedModes |-> No, AllowedF
 SL_coefs_t == [Keys |-> K1p, AllowedKeys |-> None, AllowedModes |-> No, AllowedForms |-> Fm_list, Forms |-> {"bare", "n", "nstar", "dec", "decstar"}, IntCoefs |-> I_t, DecCoefs |-> D_t, InactCoefs |-> N_t, MaxReac |-> 2, MaxProd |-> 1, MaxInact |-> 1, Arrows |-> {"->"}, Params |-> None, Kws |-> None, MaxLines |-> 1, Comments |-> None, MaxComments |-> 0, FaultKinds |-> None, PrintOpts |-> O_two, Configs |-> Cfg_none]
 SL_config_q == [Keys |-> K2b, AllowedKeys |-> A_AB2, AllowedModes |-> No, AllowedForms |-> Fm_list, Forms |-> {"bare", "n"}, IntCoefs |-> I_2, DecCoefs |-> None, InactCoefs |-> I_2, MaxReac |-> 1, MaxProd |-> 1, MaxInact |-> 1, Arrows |-> {"->"}, Params |-> P_cfg, Kws |-> W_ref, MaxLines |-> 1, Comments |-> None, MaxComments |-> 0, FaultKinds |-> None, PrintOpts |-> O_two, Configs |-> Cfg_read]
 SL_config_t == [Keys |-> K2b, AllowedKeys |-> A_AB2, AllowedModes |-> YesNo, AllowedForms |-> Fm_list, Forms |-> {"bare", "n"}, IntCoefs |-> I_2, DecCoefs |-> None, InactCoefs |-> I_2, MaxReac |-> 1, MaxProd |-> 1, MaxInact |-> 1, Arrows |-> {"->", "="}, Params |-> P_cfg, Kws |-> W_all, MaxLines |-> 1, Comments |-> None, MaxComments |-> 0, FaultKinds |-> None, PrintOpts |-> O_two, Configs |-> Cfg_read]
-SL_configsys_q == [Keys |-> K2, AllowedKeys |-> A_AB2, AllowedModes |-> YesNo, AllowedForms |-> Fm_list, Forms |-> {"bare"}, IntCoefs |-> None, DecCoefs |-> None, InactCoefs |-> None, MaxReac |-> 1, MaxProd |-> 1, MaxInact |-> 0, Arrows |-> {"->"}, Params |-> P_one, Kws |-> None, MaxLines |-> 2, Comments |-> C_tok, MaxComments |-> 1, FaultKinds |-> F_cmt, PrintOpts |-> O_two, Configs |-> Cfg_sys]
-SL_configsys_t == [Keys |-> K3, AllowedKeys |-> A_AB2, AllowedModes |-> YesNo, AllowedForms |-> Fm_list, Forms |-> {"bare"}, IntCoefs |-> None, DecCoefs |-> None, InactCoefs |-> None, MaxReac |-> 1, MaxProd |-> 1, MaxInact |-> 0, Arrows |-> {"->", "="}, Params |-> P_one, Kws |-> None, MaxLines |-> 2, Comments |-> C_tok, MaxComments |-> 1, FaultKinds |-> F_cmt, PrintOpts |-> O_two, Configs |-> Cfg_sys]
+SL_configsys_q == [Keys |-> K2, AllowedKeys |-> A_AB2, AllowedModes |-> YesNo, AllowedForms |-> Fm_la, Forms |-> {"bare"}, IntCoefs |-> None, DecCoefs |-> None, InactCoefs |-> None, MaxReac |-> 1, MaxProd |-> 1, MaxInact |-> 0, Arrows |-> {"->"}, Params |-> P_one, Kws |-> None, MaxLines |-> 2, Comments |-> C_tok, MaxComments |-> 1, FaultKinds |-> F_cmt, PrintOpts |-> O_two, Configs |-> Cfg_sys]
+SL_configsys_t == [Keys |-> K3, AllowedKeys |-> A_AB2, AllowedModes |-> YesNo, AllowedForms |-> Fm_la, Forms |-> {"bare"}, IntCoefs |-> None, DecCoefs |-> None, InactCoefs |-> None, MaxReac |-> 1, MaxProd |-> 1, MaxInact |-> 0, Arrows |-> {"->", "="}, Params |-> P_one, Kws |-> None, MaxLines |-> 2, Comments |-> C_tok, MaxComments |-> 1, FaultKinds |-> F_cmt, PrintOpts |-> O_two, Configs |-> Cfg_sys]
 SL_cover == [Keys |-> K2b, AllowedKeys |-> A_AB, AllowedModes |-> Yes, AllowedForms |-> Fm_list, Forms |-> {"bare"}, IntCoefs |-> I_2, DecCoefs |-> None, InactCoefs |-> I_2, MaxReac |-> 1, MaxProd |-> 1, MaxInact |-> 1, Arrows |-> {"->"}, Params |-> P_one, Kws |-> W_ref, MaxLines |-> 2, Comments |-> C_two, MaxComments |-> 1, FaultKinds |-> F_all4, PrintOpts |-> O_all, Configs |-> Cfg_one]
 SL_faults2_q == [Keys |-> K3, AllowedKeys |-> A_AB2, AllowedModes |-> Yes, AllowedForms |-> Fm_all, Forms |-> {"bare", "n"}, IntCoefs |-> I_2, DecCoefs |-> None, InactCoefs |-> I_2, MaxReac |-> 1, MaxProd |-> 1, MaxInact |-> 1, Arrows |-> {"->", "="}, Params |-> None, Kws |-> None, MaxLines |-> 1, Comments |-> None, MaxComments |-> 0, FaultKinds |-> F_all, PrintOpts |-> O_two, Configs |-> Cfg_none]
 SL_faults_q == [Keys |-> K3, AllowedKeys |-> A_AB, AllowedModes |-> Yes, AllowedForms |-> Fm_list, Forms |-> {"bare", "n"}, IntCoefs |-> I_2, DecCoefs |-> None, InactCoefs |-> I_2, MaxReac |-> 2, MaxProd |-> 1, MaxInact |-> 1, Arrows |-> {"->", "="}, Params |-> None, Kws |-> None, MaxLines |-> 1, Comments |-> None, MaxComments |-> 0, FaultKinds |-> F_all, PrintOpts |-> O_two, Configs |-> Cfg_none]
